@@ -81,12 +81,26 @@ Proof.
   - destruct (c !! j); exists []; by rewrite app_nil_r.
 Qed.
 
+(* a counter-like command is a no-op (it answered an error) or the SET / HSET it desugars to *)
+Lemma rstep_client2 c (log : logt) i c2 :
+  rstep c log (RClient2 i c2) = (c, log) ∨
+  ∃ cmd n, c !! i = Some n ∧ desugar (n_x n) c2 = Some cmd ∧
+           rstep c log (RClient2 i c2) = cstep c log (CClient i cmd).
+Proof.
+  cbn [rstep]. destruct (c !! i) as [n|] eqn:Hi; [|by left].
+  destruct (desugar (n_x n) c2) as [cmd|] eqn:Hd; [|by left].
+  right. exists cmd, n. done.
+Qed.
+
 Lemma rstep_log_mono c log e : ∃ ext, (rstep c log e).2 = log ++ ext.
 Proof.
-  destruct e as [e|i]; [apply cstep_log_mono|].
-  destruct (c !! i) as [n0|] eqn:Hi.
-  - rewrite (rstep_restart _ _ _ _ Hi). exists []. by rewrite app_nil_r.
-  - rewrite (rstep_restart_none _ _ _ Hi). exists []. by rewrite app_nil_r.
+  destruct e as [e|i|i c2]; [apply cstep_log_mono| |].
+  - destruct (c !! i) as [n0|] eqn:Hi.
+    + rewrite (rstep_restart _ _ _ _ Hi). exists []. by rewrite app_nil_r.
+    + rewrite (rstep_restart_none _ _ _ Hi). exists []. by rewrite app_nil_r.
+  - destruct (rstep_client2 c log i c2) as [->|(cmd & n & _ & _ & ->)].
+    + exists []. by rewrite app_nil_r.
+    + apply cstep_log_mono.
 Qed.
 
 Lemma rrun_log_mono evs : ∀ c log, ∃ ext, (rrun c log evs).2 = log ++ ext.
@@ -269,22 +283,53 @@ Qed.
 Definition RInv (K : list N → N) (c : list node) (log : logt) : Prop :=
   GInv c log ∧ Cover log ∧ CInv K c log.
 
+(* counter-like commands keep their key to its kind, like the command they desugar to *)
+Definition cmd2_ok (K : list N → N) (c : ccmd2) : Prop :=
+  match c with
+  | CIncrBy k _ | CGetSet k _ => K k = 0
+  | CHIncrBy k _ _ => K k = 5
+  end.
+
+Lemma desugar_ok K x c2 cmd : cmd2_ok K c2 → desugar x c2 = Some cmd → cmd_ok K cmd.
+Proof.
+  destruct c2 as [k d|k v|k f d]; simpl; intros HK Hd.
+  - destruct (x !! k) as [[s|h]|]; [|done|by injection Hd as <-].
+    destruct (MiniExec.parse_redis_integer s); [|done]. destruct (in_i64 _); [|done]. by injection Hd as <-.
+  - destruct (x !! k) as [[s|h]|]; [by injection Hd as <-|done|by injection Hd as <-].
+  - assert (H : ∀ z0 : option Z, match z0 with
+                 | Some z => if in_i64 (z + d) then Some (CHSet k [(f, Resp.show_Z (z + d))]) else None
+                 | None => None end = Some cmd → cmd_ok K cmd).
+    { intros [z|]; [|done]. destruct (in_i64 _); [|done]. intros [= <-]. simpl. done. }
+    destruct (x !! k) as [[s|h]|]; [done| |]; by apply H in Hd.
+Qed.
+
 Definition rev_ok (K : list N → N) (log : logt) (e : rcev) : Prop :=
   match e with
   | RStep (CClient _ cmd) => cmd_ok K cmd
   | RStep (CDeliver _ k d) => ∃ o, In (o, k, d) log
   | RRestart _ => True
+  | RClient2 _ c2 => cmd2_ok K c2
   end.
+
+Lemma cstep_client_rinv K c log j cmd :
+  RInv K c log → cmd_ok K cmd → no_ovf (cstep c log (CClient j cmd)).1 →
+  RInv K (cstep c log (CClient j cmd)).1 (cstep c log (CClient j cmd)).2.
+Proof.
+  intros (HG & Hcov & HC) He Hno. split_and!.
+  - apply cstep_client_ginv; [done|]. intros n1 Hn1. by apply (Hno j).
+  - apply cstep_client_cover; [done|done|]. intros n1 Hn1. by apply (Hno j).
+  - by apply (cstep_cinv K c log (CClient j cmd)).
+Qed.
 
 Lemma rstep_rinv K c log e :
   RInv K c log → rev_ok K log e → no_ovf (rstep c log e).1 →
   RInv K (rstep c log e).1 (rstep c log e).2.
 Proof.
-  intros (HG & Hcov & HC) He Hno. destruct e as [[j cmd|j k d]|i]; cbn [rstep rev_ok] in *.
-  - split_and!.
-    + apply cstep_client_ginv; [done|]. intros n1 Hn1. by apply (Hno j).
-    + apply cstep_client_cover; [done|done|]. intros n1 Hn1. by apply (Hno j).
-    + by apply cstep_cinv.
+  intros HI He Hno. destruct e as [[j cmd|j k d]|i|i c2]; cbn [rev_ok] in *.
+  4:{ destruct (rstep_client2 c log i c2) as [->|(cmd & n & Hi & Hd & E)]; [done|].
+      rewrite E in *. apply cstep_client_rinv; [done| |done]. by eapply desugar_ok. }
+  all: destruct HI as (HG & Hcov & HC); cbn [rstep] in *.
+  - by apply (cstep_client_rinv K c log j cmd).
   - destruct He as [o Ho]. split_and!.
     + apply (cstep_deliver_ginv c log j k d o); [done|done|]. intros n1 Hn1. by apply (Hno j).
     + cbn [cstep]. by destruct (c !! j).
@@ -375,13 +420,20 @@ Section restart_nodes.
     intros H0 (_ & G2 & _) Hgood Hno i n1 Hi1.
     pose proof (hist_good_of_log _ i n1 (G2 i n1 Hi1) Hgood) as Hg1.
     pose proof (Hno i n1 Hi1) as Ho1.
-    destruct e as [[j cmd|j k d]|j]; cbn [rstep cstep] in *.
-    - destruct (c !! j) as [n|] eqn:Hj; [|by apply (H0 i)].
+    assert (Hclient : ∀ j cmd, (cstep c log (CClient j cmd)).1 !! i = Some n1 → NodeInv n1).
+    { intros j cmd Hi. cbn [cstep] in Hi.
+      destruct (c !! j) as [n|] eqn:Hj; [|by apply (H0 i)].
       destruct (node_exec n cmd) as [[n' r] od] eqn:Hx. cbn [fst snd] in *.
       destruct (decide (i = j)) as [->|Hne].
-      + rewrite list_lookup_insert in Hi1 by (by eapply lookup_lt_Some). injection Hi1 as <-.
+      + rewrite list_lookup_insert in Hi by (by eapply lookup_lt_Some). injection Hi as <-.
         eapply (node_exec_inv U K HK); eauto.
-      + rewrite list_lookup_insert_ne in Hi1 by done. by apply (H0 i).
+      + rewrite list_lookup_insert_ne in Hi by done. by apply (H0 i). }
+    destruct e as [[j cmd|j k d]|j|j c2].
+    4:{ destruct (rstep_client2 c log j c2) as [E|(cmd & n & _ & _ & E)]; rewrite E in Hi1.
+        - by apply (H0 i).
+        - by apply (Hclient j cmd). }
+    all: cbn [rstep cstep] in *.
+    - by apply (Hclient j cmd).
     - destruct (c !! j) as [n|] eqn:Hj; [|by apply (H0 i)]. cbn [fst snd] in *.
       destruct (decide (i = j)) as [->|Hne].
       + rewrite list_lookup_insert in Hi1 by (by eapply lookup_lt_Some). injection Hi1 as <-.
@@ -513,3 +565,24 @@ Lemma ex_restart_stamps :
   map (λ x : nat * list N * rvalue, (x.1.1, st_time (rv_ts x.2))) (rrun (cluster_init 3) [] ex_restart_evs).2
   = [(0%nat, 1); (0%nat, 2); (1%nat, 2); (0%nat, 4); (1%nat, 4)].
 Proof. vm_compute. reflexivity. Qed.
+
+(* non-vacuity with counter-like commands: INCRBY on an absent key, on the result, GETSET, INCR
+   of its value, HINCRBY on a non-integer field (refused: a no-op), on a new field, and one that
+   would overflow (refused) *)
+Definition ex_counter_evs : list rcev := ex_restart_evs ++
+  [RClient2 0 (CIncrBy [99] 5); RClient2 0 (CIncrBy [99] (-7)); RClient2 0 (CGetSet [115] [49; 48]);
+   RClient2 0 (CIncrBy [115] 1); RClient2 1 (CHIncrBy [104] [102] 1); RClient2 1 (CHIncrBy [104] [110] 7);
+   RClient2 1 (CHIncrBy [104] [110] 9223372036854775807)].
+Lemma ex_counter_valid :
+  valid_rrun ex_K (cluster_init 3) [] ex_counter_evs ∧ rrun_no_ovf (cluster_init 3) [] ex_counter_evs.
+Proof.
+  split; [vm_compute; repeat split; done|].
+  apply rrun_no_ovf_b_spec. vm_compute. reflexivity.
+Qed.
+Lemma ex_counter_log :
+  map (λ x : nat * list N * rvalue, (x.1.1, x.1.2, st_time (rv_ts x.2))) (rrun (cluster_init 3) [] ex_counter_evs).2
+  = [(0%nat, [115], 1); (0%nat, [115], 2); (1%nat, [104], 2); (0%nat, [115], 4); (1%nat, [104], 4);
+     (0%nat, [99], 5); (0%nat, [99], 6); (0%nat, [115], 7); (0%nat, [115], 8); (1%nat, [104], 5)]
+  ∧ map (λ n, (n_x n !! [99], n_x n !! [115])) (rrun (cluster_init 3) [] ex_counter_evs).1
+  = [(Some (XStr [45; 50]), Some (XStr [49; 49])); (None, None); (None, None)].
+Proof. vm_compute. split; reflexivity. Qed.
